@@ -148,6 +148,7 @@ type oC04 struct {
 	r          *e2e
 	t          *tracker
 	unfinished []map[string]string // rows present in lq.db when this process started
+	seenBefore map[string]bool     // URLs the first process recorded in the seen-store
 	checked    bool
 }
 
@@ -189,6 +190,16 @@ func (o *oC04) Before(k *Kernel) {
 	for _, ev := range readJSONL[scen.Event](filepath.Join(r.in.JobDir, "events.0.jsonl")) {
 		if ev.Point == "lq.sender.recv" && len(ev.Args) > 0 {
 			started[ev.Args[0]] = true
+		}
+		if ev.Point == "seen.recorded" && len(ev.Args) > 0 {
+			u := seedArg(ev.Args[0])
+			if i := strings.IndexByte(u, ' '); i > 0 && strings.HasPrefix(u, "d") {
+				u = u[i+1:]
+			}
+			if o.seenBefore == nil {
+				o.seenBefore = map[string]bool{}
+			}
+			o.seenBefore[u] = true
 		}
 	}
 	exs := readJSONL[exchRec](filepath.Join(r.in.JobDir, "exch.0.jsonl"))
@@ -240,7 +251,7 @@ func (o *oC04) OnIdle(k *Kernel) {
 	for _, e := range r.net.Snapshot() {
 		reqd[e.Key] = true
 	}
-	var notTaken, notCrawled []string
+	var notTaken, notCrawled, skippedSeen []string
 	for _, row := range o.unfinished {
 		v := row["value"]
 		if o.t.taken[v] == 0 {
@@ -249,12 +260,20 @@ func (o *oC04) OnIdle(k *Kernel) {
 		}
 		key := uriKey(v)
 		if res := r.sc.Site[key]; res != nil && res.Expect != scen.Never && !reqd[key] {
-			notCrawled = append(notCrawled, v)
+			if r.sc.Cfg.Seencheck && o.seenBefore[v] {
+				skippedSeen = append(skippedSeen, v)
+			} else {
+				notCrawled = append(notCrawled, v)
+			}
 		}
 	}
 	if len(notTaken) > 0 {
 		sort.Strings(notTaken)
 		k.Violate("C04", "resumed", "unfinished-row-not-resumed", fmt.Sprintf("after restart the crawl went idle but these queue rows were never handed out again: %v", notTaken))
+	}
+	if len(skippedSeen) > 0 {
+		sort.Strings(skippedSeen)
+		k.Violate("C04", "resumed", "unfinished-url-skipped-as-seen-after-restart", fmt.Sprintf("seencheck is on: these rows were unfinished when the first process died, their URL had already been recorded as seen, and after restart they were handed out but skipped as seen instead of being crawled: %v", skippedSeen))
 	}
 	if len(notCrawled) > 0 {
 		sort.Strings(notCrawled)
